@@ -144,6 +144,11 @@ def _is_sym(v):
     return isinstance(v, T)
 
 
+def _subterms(t):
+    from .terms import subterms
+    return subterms(t)
+
+
 def _has_sym(v, depth=3):
     if isinstance(v, T):
         return True
@@ -712,6 +717,14 @@ class Symex:
                 return opname == "is not"
             same = a is b or (_plain(a) and _plain(b) and type(a) is type(b) and a == b)
             return same if opname == "is" else not same
+        if (isinstance(a, T) or isinstance(b, T)) and opname in ("==", "!=") and self.normalize is not None:
+            # with a rule-supplied normal form, equality of two constructed values is equality of their normal forms
+            if all(isinstance(x, T) and x.op not in _MAYBE_NONE or is_num(x) for x in (a, b)) and \
+                    not any(y.op in _MAYBE_NONE and y.op != "sym" for x in (a, b) if isinstance(x, T) for y in _subterms(x)):
+                d = self.normalize(t_sub(a, b))
+                if is_num(d):
+                    return (d == 0) == (opname == "==")
+                return opname == "!="
         if isinstance(a, T) or isinstance(b, T):
             if isinstance(a, T) and isinstance(b, T) and a == b and opname in ("==", "<=", ">="):
                 return True
@@ -1321,6 +1334,26 @@ class Symex:
             for x in self.iterate(args[0], node):
                 out.extend(self.iterate(x, node))
             return out
+        if short == "reduce" and len(args) in (2, 3) and not isinstance(args[1], T):
+            seq = list(self.iterate(args[1], node))
+            if len(args) == 3:
+                acc = args[2]
+            elif seq:
+                acc, seq = seq[0], seq[1:]
+            else:
+                raise Raised("TypeError", None, node)
+            for x in seq:
+                acc = self.call_value(args[0], [acc, x], {}, node)
+            return acc
+        if short == "prod" and len(args) >= 1 and not isinstance(args[0], T):
+            acc = args[1] if len(args) > 1 else kw.get("start", 1)
+            for x in self.iterate(args[0], node):
+                acc = self.binop(ast.Mult(), acc, x, node)
+            return acc
+        if name in _OPERATOR and len(args) == 2:
+            return self.binop(_OPERATOR[name](), args[0], args[1], node)
+        if name in ("operator.neg", "neg") and len(args) == 1:
+            return self.binop(ast.Mult(), -1, args[0], node)
         if name in ("chain",) and all(not isinstance(a, T) for a in args):
             out = []
             for x in args:
@@ -1636,6 +1669,8 @@ _BIN = {ast.Add: operator.add, ast.Sub: operator.sub, ast.Mult: operator.mul, as
         ast.BitXor: operator.xor, ast.LShift: operator.lshift, ast.RShift: operator.rshift}
 
 _BUILTIN_CONST = {"True": True, "False": False, "None": None}
+_OPERATOR = {"operator.add": ast.Add, "operator.sub": ast.Sub, "operator.mul": ast.Mult, "operator.truediv": ast.Div,
+             "operator.pow": ast.Pow, "operator.iadd": ast.Add, "operator.imul": ast.Mult}
 
 _BUILTINS = {
     "len": len, "range": range, "int": int, "str": str, "abs": abs, "sum": sum, "list": list, "tuple": tuple,
